@@ -28,9 +28,10 @@ type c05PN struct {
 	Req  bool   `json:"req"`  // the component lists the name in :required
 	Out  bool   `json:"out"`  // the includer has a variable of that name (must be shadowed inside, restored after)
 	Loop bool   `json:"loop"` // the include sits inside a v-for
+	Cond string `json:"cond"` // "" | if (the include tag carries a true v-if) | else (it is the v-else of a false v-if)
 }
 
-func c05NPNames() int { return len(c05PNames) * len(c05PForms) * 8 }
+func c05NPNames() int { return len(c05PNames) * len(c05PForms) * 8 * 3 }
 
 func c05GenPNames(i int) c05Case {
 	pn := c05PN{Name: c05PNames[i%len(c05PNames)]}
@@ -38,6 +39,7 @@ func c05GenPNames(i int) c05Case {
 	pn.Form = c05PForms[i%len(c05PForms)]
 	i /= len(c05PForms)
 	pn.Req, pn.Out, pn.Loop = i&1 != 0, i&2 != 0, i&4 != 0
+	pn.Cond = []string{"", "if", "else"}[(i/8)%3]
 	return c05Case{Part: "propnames", PN: &pn}
 }
 
@@ -52,9 +54,13 @@ func c05ExecPNames(c c05Case, o *core.Obs) {
 	default:
 		attr = fmt.Sprintf(`:%s="srcv"`, pn.Name)
 	}
-	inc := fmt.Sprintf(`<template include="components/Probe.vuego" %s other="OV"></template>`, attr)
+	cond := map[string]string{"": "", "if": `v-if="yes" `, "else": `v-else `}[pn.Cond]
+	inc := fmt.Sprintf(`<template %sinclude="components/Probe.vuego" %s other="OV"></template>`, cond, attr)
 	if strings.HasPrefix(pn.Form, "short") {
-		inc = fmt.Sprintf(`<probe %s other="OV"></probe>`, attr)
+		inc = fmt.Sprintf(`<probe %s%s other="OV"></probe>`, cond, attr)
+	}
+	if pn.Cond == "else" {
+		inc = `<em v-if="no">never</em>` + inc
 	}
 	if pn.Loop {
 		inc = `<div v-for="lp in two">` + inc + `</div>`
@@ -65,7 +71,7 @@ func c05ExecPNames(c c05Case, o *core.Obs) {
 		req = fmt.Sprintf(` :required="%s"`, pn.Name)
 	}
 	comp := fmt.Sprintf(`<template%s><i data-m="in">[{{ %s }}|{{ other }}]</i></template>`, req, pn.Name)
-	data := map[string]any{"src": "V", "srcv": "PV", "two": []any{1, 2}}
+	data := map[string]any{"src": "V", "srcv": "PV", "two": []any{1, 2}, "yes": true, "no": false}
 	wantOut := ""
 	if pn.Out && pn.Name != "layout" { // a page-level `layout` variable selects a layout file (C07), it is not an ordinary variable
 		data[pn.Name] = "OUTER"
@@ -83,10 +89,14 @@ func c05ExecPNames(c c05Case, o *core.Obs) {
 	o.Cell("part/propnames")
 	o.Cell("propnames/name/" + pn.Name)
 	o.Cell("propnames/form/" + pn.Form)
+	o.Cell("propnames/include-tag-condition/" + map[string]string{"": "none", "if": "v-if", "else": "v-else"}[pn.Cond])
 	sig := func(what string) string {
 		cls := "ordinary"
 		if pn.Name != "pa" {
 			cls = "engine-word"
+		}
+		if pn.Cond != "" {
+			cls += "+v-" + pn.Cond + "-on-the-include-tag"
 		}
 		return fmt.Sprintf("propnames/%s/%s/%s", what, cls, pn.Form)
 	}
